@@ -31,8 +31,11 @@ ARRS = [
     ("arr", ["restrict"], None, None), ("arr", ["const"], None, ("star",)), ("arr", ["volatile"], "first", A),
 ]  # fmt: skip
 P_INT = ("param", [("t", "int")], ("d", None, [], None, None, None))
+P_T0 = ("param", [("t", "T0")], ("d", None, [], None, None, None))
 FNS = [
     ("fn", None),
+    # a lone typedef name in parentheses: in a parameter it must be read as a parameter TYPE (C11 6.7.6.3p11)
+    ("fn", ("proto", [P_T0], False)),
     ("fn", ("proto", [("param", [("t", "void")], ("d", None, [], None, None, None))], False)),
     ("fn", ("proto", [("param", [("t", "int")], ("d", "pa", [], None, None, None)), ("param", [("t", "char")], ("d", "pb", [("ptr", [])], None, None, None))], False)),
     ("fn", ("proto", [P_INT], True)),
@@ -53,7 +56,7 @@ CONTEXTS = ["file", "block", "forinit", "param", "aparam", "member", "typedef", 
 def embed(ctxname, spec, deriv, parens=None):
     """translation unit placing (spec, deriv) in a context"""
     named = ctxname in ("file", "block", "forinit", "param", "member", "typedef")
-    d = ("d", "x" if named else None, list(deriv), None, None, parens if named else None)
+    d = ("d", "x" if named else None, list(deriv), None, None, parens)
     if ctxname == "file":
         return ("tu", [("decl", list(spec), [d])])
     if ctxname == "typedef":
@@ -155,7 +158,7 @@ def enum_shard(arg):
             if base and base[-1] == ("q", "_Atomic"):
                 base = [("q", "_Atomic"), ("t", "int")]
             parens = None
-            if named and idx % 3 == 1:
+            if idx % 3 == 1:
                 parens = tuple(((idx >> k) & 1) == 1 for k in range(len(deriv2) + 1))
             case = ("enum", cname, base, deriv2, parens)
             try:
